@@ -155,6 +155,11 @@ def r_closed(idx, rep):
     params = f.params()
     if len(params) != 2:
         raise AnalysisError("aabb_overlap no longer takes two boxes")
+    # one-expression helpers (`_axis_overlap(a, b, k)`) are read as the expression they return
+    import copy as _copy
+    from ..core.inline import expand_helpers as _expand
+    f0_, f = f, _copy.copy(f)
+    f.node = _expand(idx, f0_.module, f0_.node, depth=3)
     wrong = {}
     try:
         for signs in itertools.product((-1, 0, 1), repeat=6):
@@ -596,166 +601,153 @@ def _prune_test(cj, C, fnode=None):
 
 # ---------------------------------------------------------------------------------------------- R-LINKS / R-REFIT
 def r_links(idx, rep):
+    """R-LINKS / R-REFIT by symbolic execution of insert_leaf and fix_upward_tree over symbolic node indices (rules/treelinks.py): the clauses are
+    statements about the POST-STATE of the node table (and about one generic iteration of each loop), so they do not depend on statement order,
+    temporaries, helpers (`_replace_child`, `_find_sibling`), conditional expressions or which arm of an `if` handles which case."""
+    from . import treelinks as tl
     rule = "R-LINKS"
-    rep.rule(rule, "insert_leaf keeps parent/child links mutually consistent: every child-slot store nodes[P,L|R]=X is "
-                   "paired with nodes[X,PARENT]=P and vice versa; new parent inherits the old parent; the old parent's "
-                   "matching slot is redirected; root changes iff the old parent is the sentinel; types are set", floor=10)
+    rep.rule(rule, "insert_leaf leaves parent/child links mutually consistent: the fresh slot adopts the leaf and the sibling the descent stopped at, both "
+                   "point back to it, it inherits the sibling's old parent (read before relinking), the old parent's slot that held the sibling is "
+                   "redirected (both cases), the root changes iff the old parent is the sentinel, types are set, the fill level grows by one", floor=10)
     C = _consts(idx)
-    f = _nf_open(idx, idx.func(MOD + "::insert_leaf"))
+    f = idx.func(MOD + "::insert_leaf")
     fk = MOD + "::insert_leaf"
     params = f.params()
     if len(params) < 5:
         raise AnalysisError("insert_leaf signature changed")
-    p_root, p_leaf, p_nodes, p_aabbs, p_filled = params[:5]
-    # local aliases (single assignment names): x = nodes[y, PARENT] etc. Keep textual.
-    single = {}
-    counts = {}
-    for st in iter_stmts(f.node.body):
-        if isinstance(st, ast.Assign) and len(st.targets) == 1 and isinstance(st.targets[0], ast.Name):
-            counts[st.targets[0].id] = counts.get(st.targets[0].id, 0) + 1
-            single[st.targets[0].id] = st.value
-        elif isinstance(st, ast.AugAssign) and isinstance(st.target, ast.Name):
-            counts[st.target.id] = counts.get(st.target.id, 0) + 2
+    ROOT, LEAF, FILL = ("sym", "root"), ("sym", "leaf"), ("sym", "filled_len")
+    NONE = tl.const(C["INDEX_NONE"])
+    PAR, LEFT, RIGHT, TYP = (tl.const(C[k]) for k in ("PARENT_INDEX", "LEFT_INDEX", "RIGHT_INDEX", "TYPE_INDEX"))
+    it, outs = tl.run_function(idx, f.module, C, f, [ROOT, LEAF, ("arr", "nodes"), ("arr", "aabbs"), FILL])
+    verdict = {}
+    rank = {"ok": 0, "unknown": 1, "bad": 2}
 
-    def canon(txt):
-        # follow name -> name aliases assigned once (sibling_index = tree_node_index is NOT followed: reassigned)
-        seen = 0
-        while txt in single and counts.get(txt, 0) == 1 and isinstance(single[txt], ast.Name) and seen < 5 \
-                and counts.get(single[txt].id, 0) <= 1 and single[txt].id not in params:
-            txt = single[txt].id
-            seen += 1
-        return txt
-    stores = []  # (row, col, value, stmt)
-    for st in iter_stmts(f.node.body):
-        if isinstance(st, ast.Assign) and len(st.targets) == 1:
-            acc = _col_access(st.targets[0], C)
-            if acc and acc[0] == p_nodes:
-                stores.append((canon(acc[1]), acc[2], canon(u(st.value)), st))
-    child = [(r, c, v, st) for r, c, v, st in stores if c in (C["LEFT_INDEX"], C["RIGHT_INDEX"])]
-    parent = [(r, c, v, st) for r, c, v, st in stores if c == C["PARENT_INDEX"]]
-    types = [(r, c, v, st) for r, c, v, st in stores if c == C["TYPE_INDEX"]]
-    for r, c, v, st in child:
-        rep.check(any(pr == v and pv == r for pr, _, pv, _ in parent), rule,
-                  fk + "|child-store nodes[%s,%d]=%s" % (r, c, v), "%s:%d" % (f.module.relpath, st.lineno),
-                  "child link %s -> %s has no matching parent link nodes[%s, PARENT_INDEX] = %s" % (r, v, v, r),
-                  "paired with nodes[%s,PARENT]=%s" % (v, r))
-    for r, c, v, st in parent:
-        rep.check(any(cr == v and cv == r for cr, _, cv, _ in child), rule,
-                  fk + "|parent-store nodes[%s,0]=%s" % (r, v), "%s:%d" % (f.module.relpath, st.lineno),
-                  "parent link %s -> %s has no matching child-slot store nodes[%s, LEFT|RIGHT] = %s" % (r, v, v, r),
-                  "paired with a child slot of %s" % v)
-    # new parent = filled_len (fresh slot), filled_len incremented
-    newp = [n for n, v in single.items() if isinstance(v, ast.Name) and v.id == p_filled and counts.get(n) == 1]
-    inc = [st for st in iter_stmts(f.node.body) if isinstance(st, ast.AugAssign) and u(st.target) == p_filled
-           and isinstance(st.op, ast.Add) and const(st.value, C) == 1]
-    rep.check(len(newp) == 1 and len(inc) == 1, rule, fk + "|fresh-slot", f.where,
-              "the new parent is not allocated as the fresh slot %s followed by %s += 1" % (p_filled, p_filled))
-    if len(newp) != 1:
-        return
-    NP = newp[0]
-    kids = {c: v for r, c, v, st in child if r == NP}
-    rep.check(set(kids) == {C["LEFT_INDEX"], C["RIGHT_INDEX"]} and len(set(kids.values())) == 2 and p_leaf in kids.values(),
-              rule, fk + "|new-parent-children", f.where,
-              "new parent's children are %s; need the inserted leaf and its sibling in the two distinct slots" % kids)
-    sib = [v for v in kids.values() if v != p_leaf]
-    sib = sib[0] if sib else None
-    # old parent = nodes[sibling, PARENT] read before the relink
-    oldp = [n for n, v in single.items() if counts.get(n) == 1 and _col_access(v, C)
-            and _col_access(v, C)[2] == C["PARENT_INDEX"] and canon(_col_access(v, C)[1]) == sib]
-    rep.check(len(oldp) == 1, rule, fk + "|old-parent-read", f.where, "old parent of the sibling is not read into a local before relinking")
-    if len(oldp) == 1:
-        OP = oldp[0]
-        # order: read of old parent precedes the store nodes[sib, PARENT] = NP
-        rd = [st for st in iter_stmts(f.node.body) if isinstance(st, ast.Assign) and u(st.targets[0]) == OP][0]
-        wr = [st for r, c, v, st in parent if r == sib and v == NP]
-        rep.check(bool(wr) and rd.lineno < wr[0].lineno, rule, fk + "|old-parent-read-before-relink", "%s:%d" % (f.module.relpath, rd.lineno),
-                  "the sibling's old parent is read after the sibling has been relinked")
-        rep.check(any(r == NP and v == OP for r, c, v, st in parent), rule, fk + "|inherit-parent", f.where,
-                  "new parent does not inherit the sibling's old parent")
-        # root / redirect
-        ifs = [st for st in iter_stmts(f.node.body) if isinstance(st, ast.If) and _is_sentinel_test(st.test, C, [OP])]
-        rep.check(len(ifs) == 1, rule, fk + "|root-iff-sentinel", f.where, "no `if %s == INDEX_NONE` decision for the root update" % OP)
-        if len(ifs) == 1:
-            st = ifs[0]
-            eq = _sentinel_polarity(st.test, C)
-            root_branch, redirect_branch = (st.body, st.orelse) if eq else (st.orelse, st.body)
-            root_set = [s for s in iter_stmts(root_branch) if isinstance(s, ast.Assign) and u(s.targets[0]) == p_root]
-            rep.check(len(root_set) == 1 and canon(u(root_set[0].value)) == NP, rule, fk + "|root-update", "%s:%d" % (f.module.relpath, st.lineno),
-                      "when the sibling was the root the root must become the new parent")
-            other_root = [s for s in iter_stmts(redirect_branch) if isinstance(s, ast.Assign) and u(s.targets[0]) == p_root]
-            rep.check(not other_root, rule, fk + "|root-unchanged-otherwise", "%s:%d" % (f.module.relpath, st.lineno),
-                      "root reassigned although the old parent exists")
-            red = [(r, c, v, s) for r, c, v, s in child if r == OP]
-            in_branch = set(id(s) for s in iter_stmts(redirect_branch))
-            rep.check(len(red) >= 1 and all(id(s) in in_branch and v == NP for r, c, v, s in red), rule, fk + "|redirect", "%s:%d" % (f.module.relpath, st.lineno),
-                      "old parent's child slot is not redirected to the new parent (under old parent != INDEX_NONE)")
-            # the slot tested equals the slot stored
-            pm = parent_map(f.node)
-            for r, c, v, s in red:
-                par = pm.get(s)
-                if isinstance(par, ast.If) and par is not st:
-                    tested = None
-                    for op, a, b in compare_triples(par.test) if isinstance(par.test, ast.Compare) else []:
-                        for x, y in ((a, b), (b, a)):
-                            acc = _col_access(x, C)
-                            if acc and canon(acc[1]) == OP and canon(u(y)) == sib and op == "==":
-                                tested = acc[2]
-                    if s in par.body:
-                        rep.check(tested == c, rule, fk + "|redirect-slot-match col%d" % c, "%s:%d" % (f.module.relpath, s.lineno),
-                                  "slot %d is redirected under a test of slot %s == sibling" % (c, tested))
-                    else:
-                        other = {C["LEFT_INDEX"]: C["RIGHT_INDEX"], C["RIGHT_INDEX"]: C["LEFT_INDEX"]}.get(tested)
-                        rep.check(other == c, rule, fk + "|redirect-slot-match col%d" % c, "%s:%d" % (f.module.relpath, s.lineno),
-                                  "else-branch redirects slot %d but the test was on slot %s" % (c, tested))
-            rep.check(sorted(c for r, c, v, s in red) == sorted([C["LEFT_INDEX"], C["RIGHT_INDEX"]]), rule, fk + "|redirect-both-cases", "%s:%d" % (f.module.relpath, st.lineno),
-                      "redirect must handle the sibling being the left or the right child of the old parent")
-    # types
-    tmap = {(r, v) for r, c, v, st in types}
-    tvals = {r: const(ast.parse(v, mode="eval").body, C) for r, v in tmap}
-    rep.check(tvals.get(p_leaf) == C["TYPE_LEAF"], rule, fk + "|leaf-type", f.where, "inserted node is not marked TYPE_LEAF")
-    rep.check(tvals.get(NP) == C["TYPE_BRANCH"], rule, fk + "|branch-type", f.where, "new parent is not marked TYPE_BRANCH")
-    # first leaf becomes root
-    first = [st for st in f.node.body if isinstance(st, ast.If) and _is_sentinel_test(st.test, C, [p_root])]
-    okf = False
-    for st in first:
-        for s in st.body:
-            if isinstance(s, ast.Return) and isinstance(s.value, ast.Tuple) and u(s.value.elts[0]) == p_leaf:
-                okf = True
-    rep.check(okf, rule, fk + "|first-leaf-root", f.where, "inserting into an empty tree must return the leaf as root")
-    # descent: stays on children of the current node
-    ws = [s for s in iter_stmts(f.node.body) if isinstance(s, ast.While)]
-    if len(ws) != 1:
-        raise AnalysisError("insert_leaf: expected one descent loop")
-    w = ws[0]
-    cur = None
-    for op, a, b in compare_triples(w.test) if isinstance(w.test, ast.Compare) else []:
-        acc = _col_access(a, C) or _col_access(b, C)
-        if acc and acc[2] == C["TYPE_INDEX"]:
-            cur = acc[1]
-    if cur is None:
-        raise AnalysisError("insert_leaf: descent loop test is not a node-type test")
-    la = {}
-    for st in iter_stmts(w.body):
-        if isinstance(st, ast.Assign) and isinstance(st.targets[0], ast.Name):
-            acc = _col_access(st.value, C)
-            if acc and acc[0] == p_nodes and acc[1] == cur:
-                la[st.targets[0].id] = acc[2]
-    steps = [st for st in iter_stmts(w.body) if isinstance(st, ast.Assign) and u(st.targets[0]) == cur]
-    cols = set()
-    for st in steps:
-        v = u(st.value)
-        acc = _col_access(st.value, C)
-        if v in la:
-            cols.add(la[v])
-        elif acc and acc[1] == cur:
-            cols.add(acc[2])
+    def put(key, ok, msg, where=None, unknown=False):
+        state = "unknown" if unknown else ("ok" if ok else "bad")
+        if key not in verdict or rank[state] > rank[verdict[key][0]]:
+            verdict[key] = (state, where or f.where, msg)
+
+    def show(v):
+        if v is None:
+            return "nothing"
+        if v[0] == "sym":
+            return v[1]
+        if v[0] == "const":
+            return {C["INDEX_NONE"]: "INDEX_NONE"}.get(v[1], repr(v[1]))
+        if v[0] == "rd":
+            return "nodes[%s, %s]" % (show(v[1]), {C["PARENT_INDEX"]: "PARENT", C["LEFT_INDEX"]: "LEFT", C["RIGHT_INDEX"]: "RIGHT", C["TYPE_INDEX"]: "TYPE"}.get(v[2][1], v[2][1]))
+        if v[0] == "add":
+            return "%s + %d" % (show(v[1]), v[2])
+        if v[0] == "box":
+            return "aabbs[%s]" % show(v[1])
+        if v[0] == "merge":
+            return "merge(%s)" % ", ".join(show(x) for x in v[1])
+        return str(v)[:80]
+    for pr in it.problems:
+        put("interpretation", False, pr, unknown=True)
+    empty = [s for s in outs if s.known(ROOT, NONE) is True]
+    full = [s for s in outs if s.known(ROOT, NONE) is not True]
+    # first leaf
+    okf = bool(empty) and all(s.ret is not None and s.ret[0] == "tuple" and len(s.ret[1]) == 4 and s.ret[1][0] == LEAF and s.ret[1][3] == FILL
+                              and s.nodes.get((LEAF, TYP)) == tl.const(C["TYPE_LEAF"])
+                              and not [k for k in s.nodes if k != (LEAF, TYP)] for s in empty)
+    put("first-leaf-root", okf, "inserting into an empty tree (root == INDEX_NONE) must return the leaf as root, mark it TYPE_LEAF, create no link and keep the fill level")
+    if not full:
+        raise AnalysisError("insert_leaf: no path for a non-empty tree")
+    slots_seen = set()
+    descent = [lp for lp in it.loops if lp.test is not None and any(isinstance(x, tuple) and x[:1] == ("rd",) and x[2] == TYP and x[1][0] == "sym" and x[1][1].startswith("it:")
+                                                                      for x in _walk_val(lp.test))]
+    cursor = None
+    if len(descent) == 1:
+        lp = descent[0]
+        cursor = [x[1][1][3:] for x in _walk_val(lp.test) if isinstance(x, tuple) and x[:1] == ("rd",) and x[2] == TYP and x[1][0] == "sym"][0]
+        CUR = ("sym", "it:" + cursor)
+        cols = set()
+        for env_, nw, bw, done in lp.paths:
+            v = env_.get(cursor)
+            if v is not None and v[0] == "rd" and v[1] == CUR and v[2] in (LEFT, RIGHT):
+                cols.add(v[2][1])
+            else:
+                cols.add("?" + show(v))
+            if nw:
+                put("descent-children", False, "the descent loop writes the node table (%s)" % sorted(map(str, nw))[:2], "%s:%d" % (f.module.relpath, lp.lineno))
+        put("descent-children", cols == {C["LEFT_INDEX"], C["RIGHT_INDEX"]},
+            "every iteration of the descent must step to the left or to the right child of the current node, and both must be possible; one generic iteration "
+            "leads to %s" % sorted(map(str, cols)), "%s:%d" % (f.module.relpath, lp.lineno))
+    else:
+        put("descent-children", False, "expected one descent loop whose test reads the node type of its cursor, found %d" % len(descent), unknown=True)
+    for s in full:
+        if s.ret is None or s.ret[0] != "tuple" or len(s.ret[1]) != 4:
+            put("fresh-slot", False, "insert_leaf does not return (root, nodes, aabbs, filled_len) on every path", unknown=True)
+            continue
+        r_root, r_nodes, r_aabbs, r_fill = s.ret[1]
+        # the row that adopts the leaf
+        adopters = sorted({row for (row, col), v in s.nodes.items() if col in (LEFT, RIGHT) and v == LEAF}, key=repr)
+        NP = adopters[0] if len(adopters) == 1 else None
+        put("fresh-slot", NP == FILL and r_fill == ("add", FILL, 1),
+            "the new parent must be the fresh slot `filled_len` and the returned fill level filled_len + 1; the leaf is adopted by %s, returned fill level %s"
+            % ([show(a) for a in adopters], show(r_fill)))
+        if NP is None:
+            continue
+        kids = {c: s.nodes.get((NP, c)) for c in (LEFT, RIGHT)}
+        sibs = [v for v in kids.values() if v != LEAF]
+        SIB = sibs[0] if len(sibs) == 1 else None
+        put("new-parent-children", SIB is not None and None not in kids.values(),
+            "the new parent's children are %s; need the inserted leaf and its sibling in the two distinct slots" % {show(k): show(v) for k, v in kids.items()})
+        if SIB is None:
+            continue
+        put("sibling-is-descent-end", cursor is not None and SIB[0] == "sym" and SIB[1].startswith("exit:%s@" % cursor),
+            "the sibling %s is not the node the descent stopped at" % show(SIB))
+        put("child-store leaf <-> new parent", s.nodes.get((LEAF, PAR)) == NP, "the leaf is a child of the new parent but nodes[leaf, PARENT_INDEX] is %s" % show(s.nodes.get((LEAF, PAR))))
+        put("child-store sibling <-> new parent", s.nodes.get((SIB, PAR)) == NP,
+            "the sibling is a child of the new parent but nodes[sibling, PARENT_INDEX] is %s" % show(s.nodes.get((SIB, PAR))))
+        OP = ("rd", SIB, PAR)
+        put("inherit-parent (old-parent of the sibling, read before relinking)", s.nodes.get((NP, PAR)) == OP,
+            "the new parent must inherit the sibling's OLD parent (pre-state nodes[sibling, PARENT_INDEX]); it gets %s" % show(s.nodes.get((NP, PAR))))
+        put("leaf-type", s.nodes.get((LEAF, TYP)) == tl.const(C["TYPE_LEAF"]), "inserted node is not marked TYPE_LEAF")
+        put("branch-type", s.nodes.get((NP, TYP)) == tl.const(C["TYPE_BRANCH"]), "new parent is not marked TYPE_BRANCH")
+        extra = {k: v for k, v in s.nodes.items() if k[0] not in (NP, SIB, LEAF)}
+        k_ = s.known(OP, NONE)
+        if k_ is None:
+            put("root-iff-sentinel", False, "a path relinks the sibling without deciding whether its old parent is INDEX_NONE (the root case)")
+            continue
+        put("root-iff-sentinel", True, "")
+        if k_:
+            put("root-update", r_root == NP, "when the sibling was the root (old parent == INDEX_NONE) the root must become the new parent; returned root: %s" % show(r_root))
+            put("redirect", not extra, "with old parent == INDEX_NONE no other row may be written; written: %s" % sorted((show(a), show(b)) for a, b in extra))
         else:
-            cols.add("?" + v)
-    rep.check(cols == {C["LEFT_INDEX"], C["RIGHT_INDEX"]} and len(steps) == 2, rule, fk + "|descent-children", "%s:%d" % (f.module.relpath, w.lineno),
-              "descent must step to the left or the right child of the current node, got %s" % sorted(map(str, cols)))
-    # sibling is where the descent stopped
-    rep.check(sib is not None and (canon(sib) == cur or (sib in single and u(single[sib]) == cur)), rule, fk + "|sibling-is-descent-end", f.where,
-              "sibling %s is not the leaf the descent stopped at (%s)" % (sib, cur))
+            put("root-unchanged-otherwise", r_root == ROOT, "root reassigned (%s) although the old parent exists" % show(r_root))
+            red = [(k, v) for k, v in extra.items()]
+            ok_red = len(red) == 1 and red[0][0][0] == OP and red[0][0][1] in (LEFT, RIGHT) and red[0][1] == NP
+            put("redirect", ok_red, "the old parent's child slot that held the sibling must be redirected to the new parent (and nothing else written); writes to other rows: %s"
+                % sorted(("nodes[%s, %s]" % (show(a[0]), a[1][1]), show(b)) for a, b in extra.items()))
+            if ok_red:
+                c = red[0][0][1]
+                other = RIGHT if c == LEFT else LEFT
+                held = s.known(("rd", OP, c), SIB) is True or s.known(("rd", OP, other), SIB) is False
+                put("redirect-slot-match", held, "slot %s of the old parent is redirected on a path that has not established that this slot holds the sibling" % c[1])
+                slots_seen.add(c[1])
+        # refit (R-REFIT, reported below)
+        refits = [e for e in s.events if e[0] == "refit"]
+        box_np = s.boxes.get(NP) if not refits else refits[0][2].get(NP)
+        want_box = ("merge", tuple(sorted((("box", LEAF), ("box", SIB)), key=repr)))
+        starts_np = len(refits) == 1 and refits[0][1] == NP
+        starts_op = len(refits) == 1 and refits[0][1] == OP
+        put("R-REFIT|upward-fix-called", starts_np or (starts_op and box_np == want_box),
+            "insert_leaf must refit the ancestors starting at the new parent (or at the old parent after storing the new parent's box); refit calls start at %s"
+            % [show(e[1]) for e in refits])
+        put("R-REFIT|new-parent-box", starts_np or box_np == want_box,
+            "aabbs[new parent] is neither stored as the merge of the leaf's and the sibling's boxes (%s) nor recomputed by an upward refit that starts at the new parent" % show(box_np))
+        put("R-REFIT|returns-refitted-boxes", r_aabbs == ("arr", "aabbs") and r_nodes == ("arr", "nodes"), "insert_leaf must hand back the node table and the boxes")
+    put("redirect-both-cases", slots_seen == {C["LEFT_INDEX"], C["RIGHT_INDEX"]},
+        "redirect must handle the sibling being the left or the right child of the old parent; slots redirected over all paths: %s" % sorted(slots_seen))
+    refit_items = {}
+    for key, (state, where, msg) in sorted(verdict.items()):
+        if key.startswith("R-REFIT|"):
+            refit_items[key[8:]] = (state, where, msg)
+            continue
+        getattr(rep, {"ok": "ok", "bad": "bad", "unknown": "unknown"}[state])(rule, fk + "|" + key, where, msg if state != "ok" else "holds on every path")
+
 
     # ---- refit
     rule2 = "R-REFIT"
@@ -764,12 +756,33 @@ def r_links(idx, rep):
     m = idx.func(MOD + "::_merge_aabb")
     mk = MOD + "::_merge_aabb"
     mp = m.params()
-    rets = [s for s in iter_stmts(m.node.body) if isinstance(s, ast.Return)]
-    arr = None
+    # the 3x2 matrix of entry expressions, however it is written: a literal `np.array([[..], [..], [..]])` or element stores `T[i, j] = e` into
+    # a fresh array that is returned (loops over range(3) unrolled)
+    from ..core.inline import normalise_statements as _norm
+    mbody = _norm(idx, m.module, strip_docstring(m.node.body))
+    rets = [s for s in iter_stmts(mbody) if isinstance(s, ast.Return)]
+    entries = {}
     if len(rets) == 1 and isinstance(rets[0].value, ast.Call) and rets[0].value.args and isinstance(rets[0].value.args[0], ast.List):
-        arr = rets[0].value.args[0]
-    if arr is None or len(arr.elts) != 3 or not all(isinstance(r, ast.List) and len(r.elts) == 2 for r in arr.elts):
-        raise AnalysisError("_merge_aabb is no longer a literal 3x2 array of min/max terms")
+        lit = rets[0].value.args[0]
+        if len(lit.elts) == 3 and all(isinstance(r, ast.List) and len(r.elts) == 2 for r in lit.elts):
+            entries = {(k, c): lit.elts[k].elts[c] for k in range(3) for c in range(2)}
+    elif len(rets) == 1 and isinstance(rets[0].value, ast.Name):
+        T = rets[0].value.id
+        for st_ in mbody:
+            if isinstance(st_, ast.Assign) and len(st_.targets) == 1 and isinstance(st_.targets[0], ast.Subscript) and u(st_.targets[0].value) == T:
+                el = index_elts(st_.targets[0])
+                if len(el) == 2 and isinstance(const(el[0], C), int) and isinstance(const(el[1], C), int):
+                    entries[(const(el[0], C), const(el[1], C))] = st_.value
+    if set(entries) != {(k, c) for k in range(3) for c in range(2)}:
+        raise AnalysisError("_merge_aabb: the six entries of the merged box are not derivable (neither a literal 3x2 array nor element stores)")
+
+    class _Row:
+        def __init__(self, k):
+            self.elts = [entries[(k, 0)], entries[(k, 1)]]
+
+    class _Arr:
+        elts = [_Row(0), _Row(1), _Row(2)]
+    arr = _Arr
     for k, row in enumerate(arr.elts):
         for c, fn in ((0, "min"), (1, "max")):
             e = row.elts[c]
@@ -784,83 +797,42 @@ def r_links(idx, rep):
                 good = sides == set(mp[:2])
             rep.check(good, rule2, mk + "|row%d col%d" % (k, c), "%s:%d" % (m.module.relpath, e.lineno),
                       "entry [%d,%d] is `%s`; need %s(%s[%d,%d], %s[%d,%d])" % (k, c, u(e), fn, mp[0], k, c, mp[1], k, c))
-    # new parent's box
-    boxst = [st for st in iter_stmts(f.node.body) if isinstance(st, ast.Assign) and isinstance(st.targets[0], ast.Subscript)
-             and u(st.targets[0].value) == p_aabbs]
-    good = False
-    for st in boxst:
-        if canon(u(st.targets[0].slice)) == NP and isinstance(st.value, ast.Call) and (call_name(st.value) or "").endswith("_merge_aabb"):
-            args = sorted(canon(u(a.slice)) for a in st.value.args if isinstance(a, ast.Subscript) and u(a.value) == p_aabbs)
-            good = args == sorted([p_leaf, sib or "?"])
-    good_box = good
-    # upward fix call
-    fx = calls(f.node, "fix_upward_tree")
-    okc = False
-    starts_at_np = False
-    for c in fx:
-        if c.args and canon(u(c.args[0])) == NP:
-            starts_at_np = True
-        a0 = u(c.args[0]) if c.args else ""
-        # value of a0 at call time: name assigned from nodes[leaf, PARENT] or new parent itself
-        src = None
-        for st in iter_stmts(f.node.body):
-            if isinstance(st, ast.Assign) and u(st.targets[0]) == a0 and st.lineno < c.lineno:
-                src = st.value
-        cand = canon(a0)
-        if src is not None and cand != NP:
-            acc = _col_access(src, C)
-            if acc and acc[2] == C["PARENT_INDEX"] and acc[1] in (p_leaf, sib):
-                cand = NP
-            else:
-                cand = canon(u(src))
-        if cand in (NP,) or (len(oldp) == 1 and cand == oldp[0]):
-            okc = True
-    rep.check(okc, rule2, fk + "|upward-fix-called", f.where, "insert_leaf does not refit the ancestors starting at the new parent")
-    # the new parent's box: stored explicitly as merge(leaf, sibling), or produced by the upward refit when that starts AT the new parent (its two
-    # children are the leaf and the sibling by R-LINKS, and every visited node is re-merged from its children)
-    rep.check(good_box or starts_at_np, rule2, fk + "|new-parent-box", f.where,
-              "aabbs[new parent] is neither stored as the merge of the leaf's and the sibling's boxes nor recomputed by an upward refit that starts at the new parent")
-    g = _nf(idx.func(MOD + "::fix_upward_tree"))
+    for key, (state, where, msg) in sorted(refit_items.items()):
+        getattr(rep, state)(rule2, fk + "|" + key, where, msg if state != "ok" else "holds on every path")
+    # fix_upward_tree: one generic iteration of its loop
+    g = idx.func(MOD + "::fix_upward_tree")
     gk = MOD + "::fix_upward_tree"
-    gp = g.params()
-    ws = [s for s in iter_stmts(g.node.body) if isinstance(s, ast.While)]
-    if len(ws) != 1:
+    START = ("sym", "start")
+    it2, outs2 = tl.run_function(idx, g.module, C, g, [START, ("arr", "nodes"), ("arr", "aabbs")])
+    if len(it2.loops) != 1:
         raise AnalysisError("fix_upward_tree: expected one loop")
-    w = ws[0]
-    cur = gp[0]
-    rep.check(_is_sentinel_test(w.test, C, [cur]) and not _sentinel_polarity(w.test, C), rule2, gk + "|walk-to-sentinel", "%s:%d" % (g.module.relpath, w.lineno),
-              "the upward walk does not continue until the parent link is INDEX_NONE")
-    rowalias = {}
-    for st in w.body:
-        if isinstance(st, ast.Assign) and isinstance(st.targets[0], ast.Name) and isinstance(st.value, ast.Subscript) \
-                and u(st.value.value) == gp[1] and u(st.value.slice) == cur:
-            rowalias[st.targets[0].id] = cur
+    lp = it2.loops[0]
+    gw = "%s:%d" % (g.module.relpath, lp.lineno)
+    cur = [v for v in lp.assigned if lp.test is not None and ("sym", "it:" + v) in list(_walk_val(lp.test))]
+    if len(cur) != 1:
+        raise AnalysisError("fix_upward_tree: the loop test does not read exactly one loop variable")
+    cur = cur[0]
+    CUR = ("sym", "it:" + cur)
+    cont = [s for t, s in it2.cond(lp.test, tl.State()) if t]
+    rep.check(bool(cont) and all(s.known(CUR, NONE) is False for s in cont), rule2, gk + "|walk-to-sentinel", gw,
+              "the upward walk does not continue exactly while the current index is not INDEX_NONE")
+    rep.check(lp.entry.get(cur) == START, rule2, gk + "|starts-at-argument", gw, "the walk does not start at the node it is given")
+    want = ("merge", tuple(sorted((("box", ("rd", CUR, LEFT)), ("box", ("rd", CUR, RIGHT))), key=repr)))
+    rep.check(bool(lp.paths) and all(bw == {CUR: want} and not nw for env_, nw, bw, done in lp.paths), rule2, gk + "|remerge-both-children", gw,
+              "ancestor box is not recomputed as the merge of its left and right child boxes (one generic iteration stores %s)"
+              % [sorted((show(a), show(b)) for a, b in bw.items()) for _, _, bw, _ in lp.paths][:2])
+    rep.check(bool(lp.paths) and all(env_.get(cur) == ("rd", CUR, PAR) and not done for env_, nw, bw, done in lp.paths), rule2, gk + "|step-to-parent", gw,
+              "the walk does not move to nodes[current, PARENT_INDEX] (it moves to %s)" % [show(env_.get(cur)) for env_, _, _, _ in lp.paths][:2])
+    rep.check(bool(outs2) and all(s.ret == ("arr", "aabbs") for s in outs2), rule2, gk + "|returns-boxes", g.where, "fix_upward_tree must return the boxes it refitted")
 
-    def link_col(n):
-        """nodes[cur, COL] or rowalias[COL] -> COL"""
-        acc = _col_access(n, C)
-        if acc and acc[0] == gp[1] and acc[1] == cur:
-            return acc[2]
-        if isinstance(n, ast.Subscript) and isinstance(n.value, ast.Name) and n.value.id in rowalias:
-            return const(n.slice, C)
-        return None
-    refit = False
-    for st in w.body:
-        if isinstance(st, ast.Assign) and isinstance(st.targets[0], ast.Subscript) and u(st.targets[0].value) == gp[2] \
-                and u(st.targets[0].slice) == cur and isinstance(st.value, ast.Call) and (call_name(st.value) or "").endswith("_merge_aabb"):
-            cols = set()
-            for a in st.value.args:
-                if isinstance(a, ast.Subscript) and u(a.value) == gp[2]:
-                    cols.add(link_col(a.slice))
-            refit = cols == {C["LEFT_INDEX"], C["RIGHT_INDEX"]}
-    rep.check(refit, rule2, gk + "|remerge-both-children", "%s:%d" % (g.module.relpath, w.lineno),
-              "ancestor box is not recomputed as the merge of its left and right child boxes")
-    step = [st for st in w.body if isinstance(st, ast.Assign) and u(st.targets[0]) == cur]
-    rep.check(len(step) == 1 and link_col(step[0].value) == C["PARENT_INDEX"], rule2, gk + "|step-to-parent", "%s:%d" % (g.module.relpath, w.lineno),
-              "the walk does not move to nodes[current, PARENT_INDEX]")
-    # order: refit before stepping
-    # (the step uses the row alias read at the top, so order inside the body does not matter for correctness
-    #  as long as the step is the last write of cur)
+
+def _walk_val(v):
+    yield v
+    if isinstance(v, tuple):
+        for x in v:
+            if isinstance(x, tuple):
+                yield from _walk_val(x)
+
 
 
 def _is_sentinel_test(test, C, names):
@@ -1015,40 +987,88 @@ def r_bookkeep(idx, rep):
     p_batch = params[1]
     p_ext = params[2] if len(params) > 2 else None
     attrs = ["nodes", "aabbs", "external_data_list", "insert_index_list"]
-    # truncation
+    # The container clauses are decided by abstract execution (rules/bookkeep.py): lengths are linear forms over F (fill level at entry), n (batch
+    # size), F2 (fill level returned by the compiled insertion); containers are lists of segments.  Entry invariant len(X) == filled_len: 0 == 0 after
+    # __init__, re-established by the truncation clause at every exit.
+    from . import bookkeep as bk
+    F, n_, F2 = bk.Lin.sym("F"), bk.Lin.sym("n"), bk.Lin.sym("F2")
+    ini = bk.initial_state(idx, cls, f0.module)
+    ini_ok = ini is not None and all(isinstance(ini.get("self." + a), bk.Seq) and ini["self." + a].length() == bk.Lin() for a in attrs) \
+        and ini.get("self.filled_len") == bk.Lin()
+    if ini is None or any(ini.get("self." + a) is None for a in attrs):
+        rep.unknown(rule, fk + "|entry invariant", cls.methods["__init__"].where, "__init__ not interpretable: containers / fill level after construction unknown")
+    else:
+        rep.check(ini_ok, rule, fk + "|entry invariant", cls.methods["__init__"].where,
+                  "after __init__ every per-node container must be empty and filled_len 0 (len(X) == filled_len is what insert_aabbs relies on)")
+    runs = bk.analyse(idx, cls, f0.module)
+    verdict = {}          # key -> (state, where, msg): worst over variants and paths
+
+    def put(key, state, where, msg):
+        rank = {"ok": 0, "unknown": 1, "bad": 2}
+        if key not in verdict or rank[state] > rank[verdict[key][0]]:
+            verdict[key] = (state, where, msg)
+
+    n_cp = 0
+    for variant, cps, finals, pb_, pe_ in runs:
+        for env, st in cps:
+            n_cp += 1
+            where = "%s:%d" % (f.module.relpath, st.lineno)
+            nodes = env.get("self.nodes")
+            N = nodes.length() if isinstance(nodes, bk.Seq) else None
+            for a in attrs[1:]:
+                X = env.get("self." + a)
+                if not isinstance(X, bk.Seq) or X.length() is None or N is None:
+                    put("pad %s" % a, "unknown", where, "length of self.%s / self.nodes at the compiled call not derivable (%s)" % (a, variant))
+                    put("payload-before-pad %s" % a, "unknown", where, "layout of self.%s at the compiled call not derivable (%s)" % (a, variant))
+                    continue
+                put("pad %s" % a, "ok" if X.length() == N else "bad", where,
+                    "self.%s is not padded up to len(self.nodes) before the compiled insertion: len = %r, len(self.nodes) = %r (%s; F = fill level at entry, n = batch size)"
+                    % (a, X.length(), N, variant))
+                want = {"aabbs": lambda k: k == ("payload", "batch"), "external_data_list": lambda k: k == ("payload", "ext"),
+                        "insert_index_list": lambda k: k[0] == "range"}[a]
+                if a == "external_data_list" and variant.startswith("without"):
+                    # no payload: rows F .. F+n-1 must exist and must not be somebody else's payload
+                    bad_ = [k for k, l in X.segs if k[0] in ("payload", "range")]
+                    put("payload-before-pad %s" % a, "bad" if bad_ else "ok", where, "without external data the rows of the batch must be padding, found %r" % (X,))
+                    continue
+                hit = X.offset_of(want)
+                ok_ = hit is not None and hit[0] == F and hit[1] == n_
+                put("payload-before-pad %s" % a, "ok" if ok_ else "bad", where,
+                    "batch payload of self.%s must occupy rows old_filled_len .. old_filled_len + n - 1 (leaf k and payload k share index old_filled_len + k); layout at the "
+                    "compiled call: %r (%s)" % (a, X, variant))
+            # fill level handed over = F + n; capacity: n new leaves create up to n new parents
+            fl = env.get("self.filled_len")
+            put("old-filled-len", "unknown" if not isinstance(fl, bk.Lin) else ("ok" if fl == F + n_ else "bad"), where,
+                "the fill level handed to the compiled insertion must be old fill level + batch size, found %r (%s)" % (fl, variant))
+            if N is None:
+                put("capacity", "unknown", where, "len(self.nodes) at the compiled call not derivable")
+            else:
+                spare = N - (F + n_.scale(2))
+                put("capacity", "ok" if all(v >= 0 for v in spare.values()) else "bad", where,
+                    "node rows at the compiled call: %r; n new leaves need up to n new parents, i.e. F + 2*n rows (rows are filled with INDEX_NONE by np.full)" % (N,))
+        for env in finals:
+            if "<ret>" in env and not any(isinstance(env.get("self." + a), bk.Seq) and env["self." + a].length() != F for a in attrs):
+                continue           # the empty-batch exit: nothing changed
+            fl = env.get("self.filled_len")
+            for a in attrs:
+                X = env.get("self." + a)
+                L = X.length() if isinstance(X, bk.Seq) else None
+                if L is None or not isinstance(fl, bk.Lin):
+                    put("truncate %s" % a, "unknown", f.where, "final length of self.%s not derivable (%s)" % (a, variant))
+                else:
+                    put("truncate %s" % a, "ok" if L == fl else "bad", f.where,
+                        "self.%s is not truncated to self.filled_len after the insertion (parallel containers diverge): final length %r, fill level %r (%s)" % (a, L, fl, variant))
+    if n_cp == 0:
+        raise AnalysisError("AabbTree.insert_aabbs: no call of the compiled insert_aabbs reached by the interpreter")
     for a in attrs:
-        tr = [st for st in body if isinstance(st, ast.Assign) and u(st.targets[0]) == "self." + a
-              and u(st.value).replace(" ", "") == "self.%s[:self.filled_len]" % a]
-        rep.check(len(tr) == 1, rule, fk + "|truncate %s" % a, f.where,
-                  "self.%s is not truncated to self.filled_len after the insertion (parallel arrays diverge)" % a)
-    # padding to len(self.nodes)
-    for a in attrs[1:]:
-        pads = []
-        for st in body:
-            txt = u(st).replace(" ", "")
-            if ("len(self.nodes)-len(self.%s)" % a) in txt:
-                pads.append(st)
-        # the pad count may be bound to a local first
-        rep.check(len(pads) >= 1, rule, fk + "|pad %s" % a, f.where,
-                  "self.%s is not padded up to len(self.nodes) before the compiled insertion" % a)
-    # payload before padding, and the payload is the batch's
-    def first_line(pred):
-        for st in body:
-            if pred(st):
-                return st.lineno
-        return None
-    pay = {
-        "aabbs": first_line(lambda st: isinstance(st, ast.Assign) and u(st.targets[0]) == "self.aabbs" and isinstance(st.value, ast.Call)
-                            and call_name(st.value) in ("np.append", "np.concatenate", "np.vstack") and p_batch in [u(x) for x in ast.walk(st.value) if isinstance(x, ast.Name)]),
-        "external_data_list": first_line(lambda st: isinstance(st, ast.AugAssign) and u(st.target) == "self.external_data_list" and u(st.value) == p_ext
-                                         or (isinstance(st, ast.Expr) and isinstance(st.value, ast.Call) and call_name(st.value) == "self.external_data_list.extend" and u(st.value.args[0]) == p_ext)),
-        "insert_index_list": first_line(lambda st: isinstance(st, ast.Expr) and isinstance(st.value, ast.Call) and call_name(st.value) == "self.insert_index_list.extend"
-                                        and "range(" in u(st.value.args[0])),
-    }
-    for a, ln in pay.items():
-        padln = first_line(lambda st, a=a: ("len(self.nodes)-len(self.%s)" % a) in u(st).replace(" ", ""))
-        rep.check(ln is not None and padln is not None and ln < padln, rule, fk + "|payload-before-pad %s" % a, f.where,
-                  "batch payload of self.%s must be appended before the padding so that leaf k and payload k share index old_filled_len+k" % a)
+        verdict.setdefault("truncate %s" % a, ("unknown", f.where, "no final state"))
+    for key, (state, where, msg) in sorted(verdict.items()):
+        if state == "ok":
+            rep.ok(rule, fk + "|" + key, where, "holds on every path, with and without external data")
+        elif state == "bad":
+            rep.bad(rule, fk + "|" + key, where, msg)
+        else:
+            rep.unknown(rule, fk + "|" + key, where, msg)
     # nodes extension happens before aabbs append? leaves of the batch land at old_filled_len.. because every list was
     # truncated to filled_len by the previous call: check that the appended aabbs come first (axis=0 append at the end)
     # compiled call assignment
@@ -1078,19 +1098,7 @@ def r_bookkeep(idx, rep):
                 ok2 = (a[0] == cp[0] and a[1] == u(fors[0].target) and a[2] == cp[1] and a[3] == cp[2] and a[4] == cp[3])
         rep.check(ok2, rule, MOD + "::insert_aabbs|thread-state", callee.where,
                   "compiled insert_aabbs must call insert_leaf(root, i, nodes, aabbs, filled_len) for each i of insert_order")
-    # filled_len bookkeeping
     old = [st for st in body if isinstance(st, ast.Assign) and isinstance(st.targets[0], ast.Name) and u(st.value) == "self.filled_len"]
-    inc = [st for st in body if isinstance(st, ast.AugAssign) and u(st.target) == "self.filled_len" and isinstance(st.op, ast.Add)]
-    rep.check(len(old) == 1 and len(inc) == 1 and old[0].lineno < inc[0].lineno, rule, fk + "|old-filled-len", f.where,
-              "the pre-batch fill level must be saved before self.filled_len is advanced by the batch size")
-    # node capacity: 2 * (filled_len - len(nodes)) new rows
-    cap = [st for st in body if isinstance(st, ast.Assign) and "np.full" in u(st.value)]
-    okcap = False
-    for st in cap:
-        t = u(st.value).replace(" ", "")
-        if "2*(self.filled_len-len(self.nodes))" in t and "INDEX_NONE" in t:
-            okcap = True
-    rep.check(okcap, rule, fk + "|capacity", f.where, "new node rows must be 2*(filled_len - len(nodes)) rows filled with INDEX_NONE (n leaves need up to n-1 parents)")
 
     # ---- index space
     rule2 = "R-INDEXSPACE"
